@@ -78,16 +78,18 @@ theorem C05_sign_only_pending (verifyOk : Batch → Bool) (accts : List Acct) (o
   exact ⟨b, h1, h2, h3⟩
 
 /-- **After staging.**  Whenever signatures were released, the database held – at the moment of return –
-the staged pending batch: the verified batch's id and transaction, with one staged row per account diff. -/
+the staged pending batch: the verified batch's id and transaction, with one staged row per account diff, and
+each row is WHAT that diff says: the stored account moved to the diff's new outpoint / output (version only
+upwards) when re-created, left on the spent output when used up (`RowFor` / `stagedRow`). -/
 theorem C05_release_after_stage (verifyOk : Batch → Bool) (accts : List Acct) (orders : List Ord)
     (ops : List Op) (r : Release)
     (hr : r ∈ (grun verifyOk (initSt accts orders) ⟨none, []⟩ ops).2.log) :
     ∃ b rows, r.batch = some b ∧
       r.staged = some { id := b.id, tid := b.tid, tx := b.tx, rows := rows } ∧
-      rows.map (·.key) = b.diffs.map (·.acct) := by
-  obtain ⟨b, h1, _, _, rows, h4, h5⟩ :=
+      rows.map (·.key) = b.diffs.map (·.acct) ∧ Forall2 (RowFor r.db) b.diffs rows := by
+  obtain ⟨b, h1, _, _, rows, h4, h5, h6⟩ :=
     (inv_grun verifyOk _ _ ops (inv_init verifyOk accts orders)).2.2 r hr
-  exact ⟨b, rows, h1, h4, h5⟩
+  exact ⟨b, rows, h1, h4, h5, h6⟩
 
 /-- the release log grows only by a `sign` op that returned signatures -/
 theorem C05_log_grows_only_on_ok (verifyOk : Batch → Bool) (s : St) (g : Ghost) (op : Op) :
@@ -155,7 +157,7 @@ theorem C05_store_fault_never_releases (verifyOk : Batch → Bool) (s : St) (f :
     rw [hbs] at h
     simp at h
     subst h
-    obtain ⟨_, _, _, _, _, _, hnone⟩ := batchSign_ok _ _ _ _ _ hbs
+    obtain ⟨_, _, _, _, _, _, hnone, _⟩ := batchSign_ok _ _ _ _ _ hbs
     exact hf hnone
 
 /-- a release implies that the staging area holds the pending batch at the moment of return (single step,
@@ -273,11 +275,11 @@ theorem C05_handler_error_sends_no_sig (s : St) (env : HEnv)
 digest `H`) does not verify for a transaction whose outputs – or inputs, or locktime – differ in any way
 from the batch transaction it was made for: the digest differs, hence the ideal signature is invalid. -/
 theorem C05_sig_binds_tx {α : Type} (H : Preimage → α) (hH : Function.Injective H)
-    (t : Bool) (tx tx' : Tx) (idx : Nat) (sp sp' : List Out) (k : Key) (hne : tx ≠ tx') :
+    (t : Bool) (tx tx' : Tx) (idx : Nat) (sp sp' : List Out) (k : Key) (o : Out) (hne : tx ≠ tx') :
     H (preimage t (if t then htTaproot else htP2wsh) tx idx sp) ≠
       H (preimage t (if t then htTaproot else htP2wsh) tx' idx sp') ∧
-    Sig.verify k (preimage t (if t then htTaproot else htP2wsh) tx' idx sp')
-      ⟨k, preimage t (if t then htTaproot else htP2wsh) tx idx sp⟩ = false := by
+    Sig.verify k o (preimage t (if t then htTaproot else htP2wsh) tx' idx sp')
+      ⟨k, o, preimage t (if t then htTaproot else htP2wsh) tx idx sp⟩ = false := by
   have hp : preimage t (if t then htTaproot else htP2wsh) tx idx sp ≠
       preimage t (if t then htTaproot else htP2wsh) tx' idx sp' :=
     fun h => hne (preimage_injective t tx tx' idx idx sp sp' h).1
@@ -289,13 +291,138 @@ theorem C05_sig_commits_to_all_outputs {α : Type} (H : Preimage → α) (hH : F
     (t : Bool) (tx : Tx) (outs' : List Out) (idx : Nat) (sp : List Out) (hne : tx.outs ≠ outs') :
     H (preimage t (if t then htTaproot else htP2wsh) tx idx sp) ≠
       H (preimage t (if t then htTaproot else htP2wsh) { tx with outs := outs' } idx sp) :=
-  (C05_sig_binds_tx H hH t tx { tx with outs := outs' } idx sp sp 0
+  (C05_sig_binds_tx H hH t tx { tx with outs := outs' } idx sp sp 0 0
     (fun h => hne (by rw [h]))).1
 
-/-- the honest signature verifies for the transaction it was made for -/
-theorem C05_sig_valid_for_batch_tx (t : Bool) (ht : Nat) (tx : Tx) (idx : Nat) (sp : List Out) (k : Key) :
-    Sig.verify k (preimage t ht tx idx sp) ⟨k, preimage t ht tx idx sp⟩ = true := by
-  simp [Sig.verify]
+/-- a signature made for the script context of one output (say the account output with the batch's NEW
+expiry) does not help to spend another one (the output actually on chain) -/
+theorem C05_sig_binds_output (k : Key) (o o' : Out) (m : Preimage) (hne : o ≠ o') :
+    Sig.verify k o' m ⟨k, o, m⟩ = false := by
+  simp [Sig.verify, hne]
+
+/-- **Validly spends the account's current output in exactly that transaction.**  The signature
+`batchSigner.Sign` produces for a diff verifies for the STORED account's current output, under the account's
+key, over the sighash preimage of the batch transaction at the input spending the stored outpoint. -/
+theorem C05_released_sig_spends_current_output (db : DB) (tx : Tx) (prev : List Out) (d : Diff) (σ : Sig)
+    (h : SigFor db tx prev d σ) :
+    ∃ a idx, getAccount db d.acct = some a ∧ tx.ins[idx]? = some a.outpoint ∧
+      Sig.verify d.acct a.out σ.msg σ = true ∧
+      σ.msg = (if a.version ≥ versionTaprootEnabled
+               then preimage true htTaproot tx idx (prev.take tx.ins.length)
+               else preimage false htP2wsh tx idx [a.out]) := by
+  obtain ⟨a, idx, ha, _, hin, hk, ho, hm⟩ := h
+  exact ⟨a, idx, ha, hin, by simp [Sig.verify, hk, ho], hm⟩
+
+/-! ## Interleavings made explicit: re-proposals, rejected proposals, finalisation
+
+`lastOkValidate` scans a history's (op, result) pairs on its own – it does not look at the model state or
+at the ghost – and returns the batch of the last `validate` that returned success, unless a successful
+`finalize` came after it. -/
+
+def lastOkStep (cur : Option Batch) (x : Op × Res) : Option Batch :=
+  match x with
+  | (.validate b, .val none) => some b
+  | (.finalize _ _, .fin .ok) => none
+  | _ => cur
+
+def lastOkValidate (xs : List (Op × Res)) : Option Batch := xs.foldl lastOkStep none
+
+theorem grun_eq_run (verifyOk : Batch → Bool) (s : St) (g : Ghost) (ops : List Op) :
+    (grun verifyOk s g ops).1 = (run verifyOk s ops).1 ∧
+    (grun verifyOk s g ops).2.lastVerified =
+      (ops.zip (run verifyOk s ops).2).foldl lastOkStep g.lastVerified := by
+  induction ops generalizing s g with
+  | nil => exact ⟨rfl, rfl⟩
+  | cons op ops ih =>
+    have hs : (gstep verifyOk s g op).1 = (step verifyOk s op).1 := rfl
+    have hg : (gstep verifyOk s g op).2.lastVerified = lastOkStep g.lastVerified (op, (step verifyOk s op).2) := by
+      simp only [gstep, lastOkStep]
+      cases op with
+      | validate b => cases h : (step verifyOk s (.validate b)).2 <;> try rfl
+                      rename_i e; cases e <;> rfl
+      | sign f ns pv => cases h : (step verifyOk s (.sign f ns pv)).2 <;> try rfl
+                        rename_i o; cases o <;> rfl
+      | finalize id mf => cases h : (step verifyOk s (.finalize id mf)).2 <;> try rfl
+                          rename_i o; cases o <;> rfl
+      | unstage => cases h : (step verifyOk s .unstage).2 <;> rfl
+    have := ih (gstep verifyOk s g op).1 (gstep verifyOk s g op).2
+    simp only [grun, run, List.zip_cons_cons, List.foldl_cons]
+    rw [hs] at this
+    rw [← hg]
+    exact this
+
+/-- **Signatures are for the batch of the last successful verification – whatever happened in between.**
+For every history `ops` (proposals accepted or rejected, re-proposals with the same or another ID, sign
+requests that failed or succeeded, finalisations, unstaging) followed by a sign request that returns
+signatures: the independent scan of the history finds a last successfully verified, not yet finalised batch
+`b`, it satisfied the verifier, and the signatures are exactly those for `b` (one per diff, over `b.tx`). -/
+theorem C05_release_is_for_last_ok_validate (verifyOk : Batch → Bool) (accts : List Acct) (orders : List Ord)
+    (ops : List Op) (f : Faults) (ns : List Key) (pv : List Out) (S : List Sig) (N : List Key)
+    (h : (step verifyOk (run verifyOk (initSt accts orders) ops).1 (.sign f ns pv)).2 = .sign (.ok S N)) :
+    ∃ b, lastOkValidate (ops.zip (run verifyOk (initSt accts orders) ops).2) = some b ∧
+      verifyOk b = true ∧
+      Forall2 (SigFor (run verifyOk (initSt accts orders) ops).1.db b.tx pv) b.diffs S := by
+  obtain ⟨hst, hlv⟩ := grun_eq_run verifyOk (initSt accts orders) ⟨none, []⟩ ops
+  have hinv := inv_grun verifyOk _ _ ops (inv_init verifyOk accts orders)
+  obtain ⟨b0, rows, hp0, _, hF⟩ := C05_ok_implies_staged verifyOk _ f ns pv S N h
+  rw [hst] at hinv
+  obtain ⟨hcore, hv, _⟩ := hinv
+  rw [hp0] at hcore
+  cases hl : (grun verifyOk (initSt accts orders) ⟨none, []⟩ ops).2.lastVerified with
+  | none => rw [hl] at hcore; simp at hcore
+  | some bl =>
+    rw [hl] at hcore
+    simp at hcore
+    have htx : bl.tx = b0.tx := (congrArg Batch.tx hcore).symm
+    have hdf : bl.diffs = b0.diffs := (congrArg Batch.diffs hcore).symm
+    refine ⟨bl, ?_, hv bl hl, ?_⟩
+    · unfold lastOkValidate; rw [← hlv, hl]
+    · rw [htx, hdf]; exact hF
+
+/-- **Nothing is signed without an outstanding verified batch**: if the scan of the history finds no
+successfully verified batch that has not been finalised since (never any, all rejected, or the last one was
+finalised), every sign request – with any faults and any Sign-message data – releases nothing (in the model
+it is the nil-dereference crash of `batchSigner.Sign`). -/
+theorem C05_no_release_without_verified_batch (verifyOk : Batch → Bool) (accts : List Acct)
+    (orders : List Ord) (ops : List Op) (f : Faults) (ns : List Key) (pv : List Out)
+    (h : lastOkValidate (ops.zip (run verifyOk (initSt accts orders) ops).2) = none) :
+    (step verifyOk (run verifyOk (initSt accts orders) ops).1 (.sign f ns pv)).2 = .sign .panic := by
+  obtain ⟨hst, hlv⟩ := grun_eq_run verifyOk (initSt accts orders) ⟨none, []⟩ ops
+  have hinv := inv_grun verifyOk _ _ ops (inv_init verifyOk accts orders)
+  rw [hst] at hinv
+  have hnone : (grun verifyOk (initSt accts orders) ⟨none, []⟩ ops).2.lastVerified = none := by
+    rw [hlv]; exact h
+  have hp : (run verifyOk (initSt accts orders) ops).1.pending = none := by
+    have := hinv.1
+    rw [hnone] at this
+    cases hpp : (run verifyOk (initSt accts orders) ops).1.pending with
+    | none => rfl
+    | some b => rw [hpp] at this; simp at this
+  simp only [step]
+  rw [batchSign_eq_spec]
+  simp [batchSignSpec, attachAux, hp]
+
+/-- a rejected proposal – in particular a rejected re-proposal with the ID of the pending batch – changes
+nothing: the pending batch, hence what a following sign request signs, stays the earlier verified one -/
+theorem C05_rejected_proposal_changes_nothing (verifyOk : Batch → Bool) (s : St) (b : Batch)
+    (h : (validate verifyOk s b).2 ≠ none) : (validate verifyOk s b).1 = s := by
+  unfold validate at *
+  split at h
+  · simp_all
+  · split at h <;> simp_all
+
+/-- an accepted proposal replaces the pending batch – also when it carries the ID of the batch pending so
+far (same-ID re-proposal): from then on only the new version is signed -/
+theorem C05_accepted_proposal_replaces_pending (verifyOk : Batch → Bool) (s : St) (b : Batch)
+    (h : (validate verifyOk s b).2 = none) :
+    (validate verifyOk s b).1.pending = some b ∧ verifyOk b = true ∧ (validate verifyOk s b).1.db = s.db := by
+  unfold validate at *
+  split at h
+  · simp at h
+  · rename_i hv
+    split at h
+    · simp at h
+    · simp_all
 
 /-! ## Non-vacuity -/
 
@@ -319,6 +446,17 @@ example : ((grun (·.vflag) (initSt Ex.accts Ex.orders) ⟨none, []⟩ Ex.hist).
     (fun r => (r.batch.map (·.tid), r.sigs.map (fun σ => (σ.key, σ.msg.taproot, σ.msg.idx, σ.msg.outs)),
                r.staged.map (·.id)))) =
     [(some 1, [(1, false, 1, [30, 31, 32]), (2, true, 2, [30, 31, 32])], some 5)] := by rfl
+
+/-- same-ID re-proposal that IS accepted, then sign, finalize, sign: the one release is for the second
+version (tid 2), and after the finalisation nothing is signed (hypotheses of
+`C05_release_is_for_last_ok_validate` / `C05_no_release_without_verified_batch`) -/
+example :
+    let b2 : Batch := { Ex.b with tid := 2, tx := ⟨[99, 10, 11], [30, 31, 34], 0⟩ }
+    let ops : List Op := [.validate Ex.b, .validate b2, .sign noFaults [2] [50, 20, 21], .finalize 5 false]
+    let r := run (·.vflag) (initSt Ex.accts Ex.orders) ops
+    (lastOkValidate ((ops.take 2).zip (run (·.vflag) (initSt Ex.accts Ex.orders) (ops.take 2)).2)).map (·.tid) = some 2 ∧
+    lastOkValidate (ops.zip r.2) = none ∧
+    (step (·.vflag) r.1 (.sign noFaults [2] [50, 20, 21])).2 = .sign .panic := by decide
 
 /-- signer fault at the second signer call: error, nothing staged (hypothesis of
 `C05_sign_fail_stages_nothing` is met) -/
